@@ -27,7 +27,11 @@
  */
 #include "stdoutoutput.h"
 
+#include "snoopy.h"
+
+#include <signal.h>
 #include <stdio.h>
+#include <time.h>
 
 
 
@@ -46,7 +50,24 @@
  */
 int snoopy_output_stdoutoutput (char const * const logMessage, __attribute__((unused)) char const * const arg)
 {
-    int charCount;
+    int              charCount;
+    sigset_t         sigpipeSet;
+    sigset_t         pendingSet;
+    sigset_t         origMask;
+    int              sigpipeWasPending;
+    struct timespec  noWait = { 0, 0 };
+
+    /*
+     * If STDOUT is a pipe whose reading end is gone, writing to it raises SIGPIPE, which
+     * (by default) kills the process that is calling exec(). Logging must never do that:
+     * block SIGPIPE for this thread while writing, and if our write generated one,
+     * consume it before the original signal mask is restored.
+     */
+    sigemptyset(&sigpipeSet);
+    sigaddset(&sigpipeSet, SIGPIPE);
+    sigpending(&pendingSet);
+    sigpipeWasPending = sigismember(&pendingSet, SIGPIPE);
+    pthread_sigmask(SIG_BLOCK, &sigpipeSet, &origMask);
 
     charCount = fprintf(stdout, "%s\n", logMessage);
 
@@ -56,6 +77,11 @@ int snoopy_output_stdoutoutput (char const * const logMessage, __attribute__((un
      * the process image is replaced.
      */
     fflush(stdout);
+
+    if (1 != sigpipeWasPending) {
+        sigtimedwait(&sigpipeSet, NULL, &noWait);
+    }
+    pthread_sigmask(SIG_SETMASK, &origMask, NULL);
 
     return charCount;
 }
